@@ -1,3 +1,4 @@
+mod c01;
 mod c03;
 mod c05;
 mod c06;
@@ -127,9 +128,14 @@ fn main() {
         ("run", "C08") => cbackend::run(&mut ctx, cbackend::Focus::C08),
         ("run", "C10") => cbackend::run(&mut ctx, cbackend::Focus::C10),
         ("run", "C14") => cbackend::run(&mut ctx, cbackend::Focus::C14),
+        ("run", "C01") => c01::run(&mut ctx),
         ("run", "C13") => cfront::run(&mut ctx, cfront::Focus::C13),
         ("run", "C17") => cfront::run(&mut ctx, cfront::Focus::C17),
         ("run", "C18") => cfront::run(&mut ctx, cfront::Focus::C18),
+        ("c11bomb", kind) => {
+            c11::bomb_cmd(kind, args[3].parse().unwrap_or(1));
+            return;
+        }
         ("lowerbytes", path) => {
             cfront::lowerbytes_cmd(path, &args[3]);
             return;
